@@ -6,7 +6,8 @@ outputs,util,validation}.rs`) for the query-tree language of ENGINE_PROTOCOL.md:
 
 The result is *exactly* the `IRQuery` the real frontend builds for the GraphQL text of the tree
 (Vid/Eid numbering, vertex types and coercions, filters in the real order, completed edge
-parameters, `Recursive{depth, coerce_to}`, folds with `imported_tags` in `Vec` order with duplicates,
+parameters, `Recursive{depth, coerce_to}`, folds with `imported_tags` in `Vec` order (a tag used
+several times inside one fold is imported once: first occurrences, in their order),
 fold-specific outputs, post-filters, component outputs, query-level variables).  This is checked
 query by query against the real frontend by the harness (`(compile <schema> <tree>)`).
 
@@ -29,8 +30,9 @@ State threaded through everything: `St` = the two id counters, the tag table, th
 The `TagHandler::component_imported_tags` stack is modelled as a *writer*: `refTag` emits an
 `ImportEvent (k, r)` where `k = entry.path.len()`; the fold whose parent path has length `k`
 (i.e. the fold directly below the defining component on the using path — stack slot `k - 1`)
-keeps exactly those events, in order, with duplicates, as its `imported_tags`, and passes the others
-up.  This is the same list the stack slot receives (pushes happen in the same order).
+keeps those events, in order, skipping a field that is already in the slot (`pushImport`), as its
+`imported_tags`, and passes the others up.  This is the same list the stack slot receives (pushes
+happen in the same order).
 
 Errors: the real frontend accumulates errors and fails at the end; the model fails at the first
 one.  Only "is it an error" is mirrored, not which variant (queries are compared only when the real
@@ -591,9 +593,22 @@ def finishComponent (path : List Vid) (root : Vid) (acc : Acc) (st : St) :
   let (vs, ev, st1) ← makeVertices path acc.verts st
   pure (.mk root vs acc.edges acc.folds (sortOutputs acc.outs), acc.events ++ ev, st1)
 
-/-- The events a fold whose parent path has length `k` keeps as its `imported_tags`. -/
+/-- The derived `PartialEq` of `FieldRef` (all fields, the type included; the only
+`FoldSpecificFieldKind` is `Count`). -/
+def sameFieldRef : FieldRef → FieldRef → Bool
+  | .ctx v f t, .ctx v' f' t' => v == v' && f == f' && decide (t = t')
+  | .fcount e r, .fcount e' r' => e == e' && r == r'
+  | _, _ => false
+
+/-- `if !imported_tags.contains(&entry.field) { imported_tags.push(entry.field.clone()) }`. -/
+def pushImport (slot : List FieldRef) (r : FieldRef) : List FieldRef :=
+  if slot.any (sameFieldRef r) then slot else slot ++ [r]
+
+/-- The events a fold whose parent path has length `k` keeps as its `imported_tags`: its slot
+receives them in order, a field that is already in the slot is not pushed again (first occurrences
+are kept, in the order of the first occurrences). -/
 def importsAt (k : Nat) (evs : List ImportEvent) : List FieldRef :=
-  evs.filterMap fun (i, r) => if i == k then some r else none
+  (evs.filterMap fun (i, r) => if i == k then some r else none).foldl pushImport []
 
 /-- The events it passes on to the folds above it. -/
 def importsAbove (k : Nat) (evs : List ImportEvent) : List ImportEvent :=
